@@ -144,23 +144,35 @@ func ctxToHeaders(ctx freighter.Context) http.Header {
 type clientStream[RQ, RS freighter.Payload] struct {
 	streamCore[RS, RQ]
 	sendClosed bool
+	// sendErr is the error of the first failed send. It is kept apart from
+	// peerCloseErr so that a failed send does not replace the result Receive reports.
+	sendErr error
+	// closed is set once the stream's end has been observed and the connection
+	// released.
+	closed bool
 }
 
 // Send implements the freighter.ClientStream interface.
 func (s *clientStream[RQ, RS]) Send(req RQ) error {
-	if s.peerCloseErr != nil {
+	if s.peerCloseErr != nil || s.sendErr != nil {
 		return freighter.EOF
 	}
 	if s.sendClosed {
 		return freighter.ErrStreamClosed
 	}
-	s.peerCloseErr = s.send(WSMessage[RQ]{Type: WSMessageTypeData, Payload: req})
-	return s.peerCloseErr
+	s.sendErr = s.send(WSMessage[RQ]{Type: WSMessageTypeData, Payload: req})
+	return s.sendErr
 }
 
 func (s *clientStream[RQ, RS]) Receive() (RS, error) {
 	pld, err := s.streamCore.Receive()
 	if err != nil {
+		// Repeated calls keep returning the terminal result; the connection is
+		// released only once.
+		if s.closed {
+			return pld, err
+		}
+		s.closed = true
 		return pld, errors.Combine(err, s.close())
 	}
 	return pld, nil
